@@ -36,7 +36,7 @@ ROOT_TRUSTED = (
 
 # quick tier: how many shards of cases are evaluated by the model (evenly spread over the run; the Go oracles see every case)
 QUICK_SHARDS = dict(c01=12, c04=120, c06=12, c07=9, c11=9, c13=6)
-THOROUGH_SHARDS = dict(c01=200, c04=600, c06=200, c07=160, c11=120, c13=100)
+THOROUGH_SHARDS = dict(c01=150, c04=1200, c06=200, c07=160, c11=120, c13=100)
 
 
 def _pick(shards, limit):
